@@ -24,12 +24,17 @@ def _load_known():
     return json.load(open(p))
 
 
-def run_specs(mod, scope=None):
+def run_specs(mod, scope=None, only=None):
     """Symbolically execute every function under contract; returns (obligations, per-function info, undecided list)."""
     sym_scope_prev = ground.SCOPE
     ground.SCOPE = scope
     try:
         specs = mod.make_specs()
+        if only:
+            sel = [sp for sp in specs if sp.qualname in only]
+            # a canary inside an inlined helper has no spec of its own: re-run everything
+            inl = [sp for sp in specs if any(o in getattr(sp, "inline", ()) for o in only)]
+            specs = (sel + [sp for sp in inl if sp not in sel]) or specs
         obs, info, undecided, covers = [], [], [], []
         for sp in specs:
             t0 = time.time()
@@ -65,7 +70,7 @@ def run_specs(mod, scope=None):
                 undecided.append(f"{sp.qualname}: unsupported construct: {e}")
             except LookupError as e:
                 undecided.append(f"{sp.qualname}: {e}")
-        if hasattr(mod, "lemmas"):
+        if hasattr(mod, "lemmas") and not only:
             for ob in mod.lemmas():
                 ob.spec = None
                 obs.append(ob)
@@ -186,12 +191,15 @@ def run_canaries(mod, tier, seed):
         source.reset()
         try:
             apply_canary(c)
-            obs, _info, und = run_specs(mod)
+            obs, _info, und = run_specs(mod, only=set(c.get("fns", [c["fn"]])) | set(c.get("also", [])))
             obs = [o for o in obs if o.fn in c.get("fns", [c["fn"]]) or o.fn == c["fn"].split(".")[-1] or True]
             res = solve.discharge(obs, timeout_ms=4000, seed=seed, fallback=False)
             bad = [obligation_id(mod.PROP, o) for o, r in zip(obs, res) if r["verdict"] != "unsat"]
             refuted = [obligation_id(mod.PROP, o) for o, r in zip(obs, res) if r["verdict"] == "sat"]
             out.append({"canary": c["name"], "killed": bool(bad or und), "not_proved": bad[:6], "refuted": refuted[:6], "undecided": und[:3]})
+        except LookupError as e:
+            # the snippet the canary rewrites is gone: the function under contract changed (spec drift), not a soundness failure
+            out.append({"canary": c["name"], "killed": True, "skipped": "snippet not found: " + str(e)[:200]})
         except Exception as e:
             out.append({"canary": c["name"], "killed": False, "error": repr(e)[:300]})
         finally:
@@ -235,6 +243,9 @@ def main(mod, tier, seed, replay=None):
     if battery and battery.get("error"):
         undecided_msgs.append("battery: " + battery["error"])
     canaries = run_canaries(mod, tier, seed) if not failed else []
+    for c in canaries:
+        if c.get("skipped"):
+            undecided_msgs.append(f"canary `{c['canary']}` not applicable ({c['skipped']})")
     for c in canaries:
         if not c["killed"]:
             print(f"CHECKER-UNSOUND property={prop} canary `{c['canary']}` was not detected: {c}")
